@@ -4,13 +4,16 @@ from ..qcheck import mk_case, run_cases
 from ..common import dec_val
 
 MODULE = "Genql.Properties.C02"
-LEAN_TARGETS = [MODULE]
+LEAN_TARGETS = [MODULE, "Genql.Properties.C02Selectors"]
 THEOREMS = ["Genql.C02." + t for t in [
     "select_length", "select_row_local", "select_rowwise", "select_keys", "evalSel_frame", "select_values",
-    "missing_is_null", "binop_null", "select_no_marker", "select_plain"]]
+    "missing_is_null", "binop_null", "select_no_marker", "select_plain",
+    "selc_eval", "selc_error", "selc_keys_eq_col", "tableSel_keys_eq_table"]]
 TRUSTED = ["IEEE-754 arithmetic (Lean Float in the driver, opaque to the kernel)", "sqlparser (query text -> AST)"]
 RULE = ("random tables with nested objects, NULLs and missing keys x select lists of 1-6 items (columns, nested paths, "
-        "aliases, duplicates, *, expression trees over all 11 binary and 3 unary operators, CASE with/without ELSE); "
+        "aliases, duplicates, *, expression trees over all 11 binary and 3 unary operators, CASE with/without ELSE); plus "
+        "columns, WHERE operands and FROM tables written as path-selector texts (indexes, open ranges, each, pipes, quoted "
+        "keys, mix=>) over rows whose arrays differ in length; "
         "non-trivial = >=1 row and an expression of depth >=2 whose value is not NULL on some row; distinct by (doc, SQL)")
 
 INT_OPS = ["intDiv", "mod", "bitAnd", "bitOr", "bitXor", "shl", "shr"]
@@ -148,12 +151,48 @@ def gen_case(rnd, depth):
     return mk_case({"t": rows}, q, mode="seq")
 
 
+SEL_TEXTS = ["items[0].x", "items[1].x", "items[(1:end)]", "items[(begin:1)]", "items[each].x", "items[(0:2)].x",
+             "tags[(0:1)]", "tags[(1:end)]", "tags[0]", "tags[3]", "o.k", "o{k|string}", "o{k, z}", "items[keep=>each].x",
+             "items[each]", "grid[each:0]", "grid[(0:1):each]", "grid[each:(1:end)]", "mix=>grid", "missing[0]", "'a b'.c"]
+
+
+def gen_selector_case(rnd):
+    """select items / WHERE operands written as path-selector texts, evaluated per row: every row has arrays of a
+    different length, so whatever a cached parse remembers about one row is wrong for the next"""
+    n = rnd.randint(0, 6)
+    rows = []
+    for i in range(n):
+        rows.append({"a": rnd.choice([1, 2, 3]),
+                     "items": [{"x": rnd.choice([1, 2, 5]), "y": "v%d" % j} for j in range(rnd.randint(0, 4))],
+                     "tags": [rnd.choice(["p", "q", "r"]) for _ in range(rnd.randint(0, 4))],
+                     "o": {"k": rnd.choice([1, 2.5, "s", None]), "z": i},
+                     "grid": [[rnd.randint(0, 9) for _ in range(rnd.randint(0, 3))] for _ in range(rnd.randint(0, 3))],
+                     "a b": {"c": i}})
+    sel = [item(col("a"))]
+    for j in range(rnd.randint(1, 4)):
+        sel.append(item(selc(rnd.choice(SEL_TEXTS)), "s%d" % j))
+    if rnd.random() < 0.2:
+        sel.append(item(["bin", "plus", selc("items[0].x"), num(1)], "calc"))
+    if rnd.random() < 0.2:
+        sel.append(item(["func", "", "if", [["cmp", "gt", selc("o.z"), num(1)], selc("items[0].x"), col("a")]], "cc"))
+    wh = TRUE
+    if rnd.random() < 0.3:
+        wh = ["cmp", rnd.choice(["gt", "le", "ne"]), selc(rnd.choice(["items[0].x", "o.z", "grid[0:0]"])), num(rnd.choice([1, 2]))]
+    frm = table("t")
+    if rnd.random() < 0.3:
+        frm = tablesel(rnd.choice(["t[(0:2)]", "t[(1:end)]", "t[0].items", "t[each].items", "t[(0:2)].items", "t[5]"]))
+    q = select(sel, frm, wh=wh)
+    return mk_case({"t": rows}, q, mode="seq", tag="selector-columns")
+
+
 def nontrivial(c, g, l):
     if g["r"] != "ok":
         return False
     rows = dec_val(g["v"])
     if not rows:
         return False
+    if c.get("tag") == "selector-columns":
+        return len(rows) >= 2
     deep = [s for s in c["q"][3] if s[0] == "item" and depth_of(s[1]) >= 2]
     if not deep:
         return False
@@ -167,12 +206,15 @@ def explore(chk, rnd, tier):
     while done < n and not chk.violations:
         m = min(5000, n - done)
         run_cases(chk, [gen_case(rnd, rnd.randint(1, depth)) for _ in range(m)], nontrivial=nontrivial)
+        run_cases(chk, [gen_selector_case(rnd) for _ in range(m // 5)], nontrivial=nontrivial, label="sel:")
         done += m
 
 
 LEVEL_TEXT = ("Lean theorems about the model of ExecSelect/SelectExpr/Expr: output length = input length, key set = aliases / "
               "column names / source keys for *, each value = the denotation of its expression on that row only, missing key => "
-              "NULL, NULL operand => NULL, every output value plain and no `<-` key; tied to /repo by the correspondence "
+              "NULL, NULL operand => NULL, every output value plain and no `<-` key; a column / table written as a selector text is "
+              "evaluated by the selector model of C09 on the current row only and agrees with the key-path reading on dotted "
+              "identifiers (selc_keys_eq_col, tableSel_keys_eq_table); tied to /repo by the correspondence "
               "(bit-exact on doubles).")
 LEVEL_NOTE = ("IEEE rounding/NaN/Inf are outside every theorem (numbers are an abstract type in proofs, Float in the driver). "
               "Integer operators are modelled on int64-exact operands only; other operands are skipped as out-of-model and counted.")
